@@ -5,6 +5,7 @@ use crate::case::Case;
 use crate::ctx::{Ctx, Monitors};
 
 pub mod e1;
+pub mod e5;
 
 #[derive(Clone, Copy, Debug, PartialEq, Eq)]
 pub enum Tier {
@@ -40,7 +41,11 @@ pub struct PropSpec {
     pub id: &'static str,
     pub level: &'static str,
     pub batches: Vec<Batch>,
+    pub exhaustive: bool,
+    pub rule: &'static str,
 }
+
+pub const RULE_E1: &str = "one evaluation = one simulated run (a fault-free twin or a faulted run) of one workload family; a run is non-trivial when gimli yielded >=1 item AND (>=1 injected fault fired OR >=1 iterator was driven to its end marker); distinct = distinct FNV-1a digests of the full canonical event stream among non-trivial runs, counted by the machinery";
 
 pub fn monitors_for(prop: &str) -> Monitors {
     match prop {
@@ -61,6 +66,8 @@ pub fn spec(prop: &str, tier: Tier) -> Option<PropSpec> {
                 Batch { engine: "e1", profile: "debug", runs: if q { 120_000 } else { 6_000_000 } },
                 Batch { engine: "e1", profile: "release", runs: if q { 240_000 } else { 24_000_000 } },
             ],
+            exhaustive: false,
+            rule: RULE_E1,
         },
         "C04" => PropSpec {
             id: "C04",
@@ -69,6 +76,8 @@ pub fn spec(prop: &str, tier: Tier) -> Option<PropSpec> {
                 Batch { engine: "e1", profile: "debug", runs: if q { 60_000 } else { 2_000_000 } },
                 Batch { engine: "e1", profile: "release", runs: if q { 140_000 } else { 10_000_000 } },
             ],
+            exhaustive: false,
+            rule: RULE_E1,
         },
         "C08" => PropSpec {
             id: "C08",
@@ -77,6 +86,18 @@ pub fn spec(prop: &str, tier: Tier) -> Option<PropSpec> {
                 Batch { engine: "e1", profile: "debug", runs: if q { 60_000 } else { 2_000_000 } },
                 Batch { engine: "e1", profile: "release", runs: if q { 140_000 } else { 10_000_000 } },
             ],
+            exhaustive: false,
+            rule: RULE_E1,
+        },
+        "C17" => PropSpec {
+            id: "C17",
+            level: "fault_enumeration",
+            batches: vec![
+                Batch { engine: "e5", profile: "debug", runs: e5::total_indices() },
+                Batch { engine: "e5", profile: "release", runs: e5::total_indices() },
+            ],
+            exhaustive: true,
+            rule: "exhaustive enumeration of (loader entry point) x (loader failure index k from none to one past the last call); one evaluation = one such run; non-trivial = the loader was called and either failed by injection or every loaded field was compared against its marker; distinct = distinct event-stream digests",
         },
         _ => return None,
     })
@@ -100,6 +121,7 @@ pub fn class_belongs(prop: &str, class: &str) -> bool {
 pub fn gen_case(engine: &str, prop: &str, tier: Tier, master: u64, i: u64) -> Case {
     match engine {
         "e1" => e1::gen_case(prop, tier, master, i),
+        "e5" => e5::gen_case(i),
         _ => panic!("unknown engine {}", engine),
     }
 }
@@ -108,6 +130,7 @@ pub fn gen_case(engine: &str, prop: &str, tier: Tier, master: u64, i: u64) -> Ca
 pub fn dispatch(case: &Case, ctx: &mut Ctx<'_>) {
     match case.engine.as_str() {
         "e1" => e1::run(case, ctx),
+        "e5" => e5::run(case, ctx),
         other => panic!("unknown engine {}", other),
     }
 }
